@@ -226,13 +226,16 @@ def register_vs_convert(V):
         if variant == 'override-vs-convert':
             # a converter is replaced at run time while another thread converts to that type: the racing conversion may see
             # either converter, every conversion after register() returned sees the new one
+            filled = V.bool('cache_filled')
+
             def build_o():
                 ns = build_s2()
 
                 def conv(transformer, data, t):
                     return t(('old', data))
                 utype.register_transformer(ns['Money'])(conv)
-                utype.type_transform(1, ns['Money'])          # (fills the cache)
+                if filled:
+                    utype.type_transform(1, ns['Money'])          # (fills the cache)
                 return ns
 
             def use(ns):
